@@ -648,7 +648,22 @@ def r6_wire_symmetry(ctx):
     ctx.ob('C11.R6', 'skipped-only-when-empty', skips <= {'HashMap::is_empty'}, ser[0].loc(), 'conditions under which a field is skipped: %s' % (sorted(skips) or 'none'))
 
 
+def r7_the_store_keeps_its_side_of_the_contract(ctx):
+    ctx.rule('C11.R7', 'shared with C13.R3: the typestate exploration (C11.R5) checks Session against a store CONTRACT — create stores the record it is given unless a '
+             'live record has the id, an expired record is absent. The in-memory store, which `Session::sync` is fed in every test and example, keeps that '
+             'contract: its guarded accessors answer present-and-fresh only, `create` inserts (overwrites a stale slot) after the freshness test, nothing '
+             'is mutated on a failing path. A `create` that keeps a stale slot (`entry().or_insert`) makes the re-creation that `sync` performs after '
+             '`update` reported an unknown id a silent no-op: the next request loads nothing.')
+    from .c13 import r3_memory
+    from ..engine import Ctx
+    side = Ctx(ctx.prop, ctx.fb, ctx.tier)
+    r3_memory(side)
+    for ob in side.obs:
+        ctx.ob('C11.R7', ob.key, ob.ok, ob.loc, ob.detail, ob.nontrivial)
+
+
 def check(ctx):
+    r7_the_store_keeps_its_side_of_the_contract(ctx)
     from .c11_model import r5_typestate
     r5_typestate(ctx)
     r1_dirty_tracking(ctx)
